@@ -114,7 +114,7 @@ func TestC10_Exhaustive(t *testing.T) {
 
 func genHop(ids int) *rapid.Generator[hop] {
 	return rapid.Custom(func(rt *rapid.T) hop {
-		op := rapid.SampledFrom([]string{"start", "start", "start", "do", "indicate", "respond", "respond", "respond", "unknown", "garbage",
+		op := rapid.SampledFrom([]string{"start", "start", "start", "do", "indicate", "respond", "respond", "respond", "unknown", "garbage", "readerr",
 			"tick", "tick", "tick", "tick", "fail", "setrto", "mutate", "close"}).Draw(rt, "op")
 		h := hop{Op: op}
 		switch op {
